@@ -2,7 +2,10 @@ import EgoVerif.Common.Drv
 import EgoVerif.C10.Step
 import EgoVerif.C10.Spec
 /- line protocol (program encoding: see harness zz_verif_c10_test.go; `D[..]` bodies are lifted
-   into extra code units numbered after the functions, in order of completion):
+   into extra code units numbered after the functions, in order of completion; a function text
+   starting with `u` / `n` has one unnamed / named result: its `Y<k>` `Z<f>` `W` statements are
+   `return mkv(k)` / `return f<f>()` / `return 1/zero`, and the harness closes its body with a bare
+   return, which the parser appends):
    `vm <prog>`   → trace of the VM model on compileCtl, e.g. `1,2,r7,rn:ok`
    `spec <prog>` → trace of CtlSpec
    `skel <prog>` → control skeleton of compileCtl, same token language as the harness -/
@@ -11,6 +14,7 @@ namespace EgoVerif.C10
 structure PS where
   next : Nat
   clos : List Block      -- reversed
+  named : Bool := false  -- the function being parsed has named results
 
 def parseNum : List Char → Nat → Nat × List Char
   | c :: r, acc => if c.isDigit then parseNum r (acc * 10 + (c.toNat - 48)) else (acc, c :: r)
@@ -47,6 +51,9 @@ def parseStmt : Nat → Char → List Char → PS → Option (Stmt × List Char 
     else if c == 'B' then some (.brk, r, st)
     else if c == 'K' then some (.cont, r, st)
     else if c == 'V' then some (.recover, r, st)
+    else if c == 'Y' then let (n, r') := parseNum r 0; some (.retE st.named (.mkv n), r', st)
+    else if c == 'Z' then let (n, r') := parseNum r 0; some (.retE st.named (.call n), r', st)
+    else if c == 'W' then some (.retE st.named .div, r, st)
     else if c == 'T' then
       match parseBracket fuel r st with
       | none => none
@@ -57,7 +64,7 @@ def parseStmt : Nat → Char → List Char → PS → Option (Stmt × List Char 
     else if c == 'D' then
       match parseBracket fuel r st with
       | none => none
-      | some (b, r', st') => some (.defer_ st'.next, r', { next := st'.next + 1, clos := b :: st'.clos })
+      | some (b, r', st') => some (.defer_ st'.next, r', { st' with next := st'.next + 1, clos := b :: st'.clos })
     else if c == 'L' then
       let (id, r1) := parseNum r 0
       match r1 with
@@ -73,13 +80,19 @@ end
 def parseFuncs : Nat → List Char → PS → Option (List Block × PS)
   | 0, _, _ => none
   | fuel + 1, cs, st =>
-    match parseBlock (cs.length + 2) cs st with
+    -- kind marker: `u` unnamed result, `n` named result; such a body ends with a bare return
+    let (kind, cs) := match cs with
+      | 'u' :: r => (1, r)
+      | 'n' :: r => (2, r)
+      | _ => (0, cs)
+    let close : Block → Block := fun b => if kind == 0 then b else b ++ [.ret]
+    match parseBlock (cs.length + 2) cs { st with named := kind == 2 } with
     | none => none
-    | some (b, [], st') => some ([b], st')
+    | some (b, [], st') => some ([close b], st')
     | some (b, '|' :: r, st') =>
       (match parseFuncs fuel r st' with
        | none => none
-       | some (bs, st'') => some (b :: bs, st''))
+       | some (bs, st'') => some (close b :: bs, st''))
     | some _ => none
 
 def parseProg (s : String) : Option Prog :=
@@ -98,8 +111,10 @@ def showStatus : Option Status → String
   | some .ok => "ok" | some .err => "err" | some .panic => "panic" | some .other => "other"
   | none => "nofuel"
 
+/-- the harness keeps the first 400 markers of a run (deferred calls that run again and again
+make a real trace much longer than the 150 markers the reference run is limited to) -/
 def showTrace (r : List Tok × Option Status) : String :=
-  (if r.1.isEmpty then "-" else ",".intercalate (r.1.map showTok)) ++ ":" ++ showStatus r.2
+  (if r.1.isEmpty then "-" else ",".intercalate ((r.1.take 400).map showTok)) ++ ":" ++ showStatus r.2
 
 def kept : Instr → Bool
   | .loopInit _ | .loopIncr _ => false
@@ -136,11 +151,12 @@ def handle (line : String) : String :=
     match parseProg src with
     | none => "bad-input"
     | some p =>
-      if op == "vm" then showTrace (traceVM p 400000)
+      let named := (src.splitOn "|").map (·.startsWith "n")
+      if op == "vm" then showTrace (traceCode (compileCtlK p named) 400000)
       else if op == "spec" then showTrace (traceSpec p 4000)
       else if op == "skel" then
         let nf := ((src.toList.filter (· == '|')).length + 1)
-        let units := compileCtl p
+        let units := compileCtlK p named
         " | ".intercalate ((List.range nf).map (skelUnit units 64))
       else "bad-op"
   | _ => "bad-op"
